@@ -55,6 +55,18 @@ func (m TgMErr) MarshalJSON() ([]byte, error) {
 	return []byte(`true`), nil
 }
 
+// byte-kind element types: encoding/json writes a slice of a named byte type as base64 unless the
+// element (or its pointer) has a marshal method, in which case it is an array of the method's results
+type TgTextByte uint8
+
+func (b TgTextByte) MarshalText() ([]byte, error) { return []byte("TB" + strconv.Itoa(int(b))), nil }
+
+type TgJSONByte uint8
+
+func (b TgJSONByte) MarshalJSON() ([]byte, error) { return []byte(`{"jb":` + strconv.Itoa(int(b)) + `}`), nil }
+
+type TgPlainByte uint8
+
 type TgIntKey int
 
 func (k TgIntKey) MarshalText() ([]byte, error) { return []byte("K" + strconv.Itoa(int(k))), nil }
@@ -135,6 +147,7 @@ var tgNamed = []reflect.Type{
 	reflect.TypeOf(stdjson.Number("")), reflect.TypeOf(stdjson.RawMessage(nil)), reflect.TypeOf(TgNamedStr("")),
 	reflect.TypeOf(TgNamedInt(0)), reflect.TypeOf(TgNamedSlice(nil)), reflect.TypeOf(TgNamedMap(nil)), reflect.TypeOf(TgIntKey(0)),
 	reflect.TypeOf(TgRecEmb{}), reflect.TypeOf(TgMutEmbA{}), reflect.TypeOf(map[stdjson.Number]int(nil)),
+	reflect.TypeOf([]TgTextByte(nil)), reflect.TypeOf([]TgJSONByte(nil)), reflect.TypeOf([]TgPlainByte(nil)),
 }
 
 var tgBasic = []reflect.Type{
